@@ -1,6 +1,12 @@
 """C16: type unification (reference_algebra.Unify) is a symmetric idempotent meet;
 a clash is reported iff the two types have no common instance; clash-free constraint
-sets are order independent."""
+sets are order independent.
+
+Three sub-domains: (1) exhaustive ordered pairs of small terms, (2) sampled pairs and
+triples of terms at depth <= 3 (shared objects, reference chains), (3) sampled histories
+of the constraint operations of the type inference (Unify, UnifyRecordField,
+UnifyListElement, TypeReference.CloseRecord) over a pool of references that get aliased
+by the earlier operations."""
 import itertools
 import json
 import os
@@ -13,8 +19,9 @@ from lv import typemeet as tm
 from lv.typemeet import BOT
 
 ID = 'C16'
-# Hypothesis-sampled cases (pairs and triples at depth <= 3); the exhaustive
-# depth <= 2 sub-domain is enumerated IN ADDITION in every run (see evidence_extra).
+# Hypothesis-sampled cases (pairs and triples at depth <= 3); IN ADDITION every run
+# draws HIST_SHARE histories per sampled case and enumerates the exhaustive depth <= 2
+# sub-domain (see evidence_extra).
 BUDGET = {'quick': 24000, 'thorough': 200000}
 WALL = {'quick': 900, 'thorough': 5400}
 EXHAUSTIVE = None       # only the sub-domain described in evidence_extra is exhaustive
@@ -55,7 +62,26 @@ RULE = ('(1) exhaustive: every ordered pair (a, b) of T x T, T = all type terms 
         'built, Unify is called in every order/orientation of the constraints and '
         'VeryConcreteType of every root is compared with an independent meet; Unify is '
         'then repeated. Non-trivial = at least two of the terms are composite, or the '
-        'meet is none of the input terms; distinct by hash of the terms and constraints.')
+        'meet is none of the input terms; distinct by hash of the terms and constraints. '
+        '(3) Hypothesis-sampled HISTORIES of 1-9 (mostly 2-6) constraint operations as '
+        'type_inference/research/infer.py issues them -- Unify(r, s), UnifyRecordField(r, '
+        'f, s), UnifyListElement(l, e), r.CloseRecord() -- over a pool of 3-7 '
+        'TypeReference objects (mostly Any; ground atoms, Singular/Sequential, small '
+        'signature-like terms with shared sub-objects, reference chains, empty open '
+        'records as record-literal partners) that become aliased by the earlier '
+        'operations; CloseRecord only on a reference that denotes a record at that moment '
+        '(record literal: unify with {...}, address the fields, close), histories end at '
+        'the first clash, occurs-check histories are skipped. Oracle: a union-find model '
+        'of the constraint set (closing applies to the whole unified class; addressing a '
+        'field of an open record adds it, of a closed record requires it). After EVERY '
+        'operation all pool references are observed with VeryConcreteType: references of '
+        'one class denote the same type, nothing known before is lost, the pool equals '
+        'the model, a BadType appears iff the model has no common instance; then every '
+        'operation is repeated (also each twice in a row) and the history is re-run in '
+        'up to 8 other orders (operations between two CloseRecord calls permuted, Unify '
+        'arguments flipped) which must give the same types. History non-trivial = >= 2 '
+        'operations and a later operation acts on a reference whose class an earlier '
+        'operation touched; repeated histories are not counted.')
 ASSUMPTIONS = [
     'oracle lv/typemeet.py: structural meet over tree terms and a union-find '
     'formulation for terms sharing nodes, cross-checked against each other on every '
@@ -68,6 +94,17 @@ ASSUMPTIONS = [
     'after a clash nothing is asserted about later unifications (triples); clash = a '
     'BadType anywhere inside VeryConcreteType of a root',
     'workers run with PYTHONHASHSEED=0 (set iteration order inside UnifyFriendlyRecords)',
+    'histories: UnifyListElement(l, e) is the constraint "e is a scalar (Singular) and l '
+    'is a list of e" (its documented meaning: lists of lists are disallowed); '
+    'CloseRecord is the constraint "the record has exactly the fields known now" on the '
+    'type, i.e. on every reference unified with it so far; it is order dependent by '
+    'nature, so CloseRecord calls are never moved across other operations',
+    'histories: CloseRecord is only issued on a reference whose class is a record '
+    'according to the model (infer.py calls it on record-literal nodes right after '
+    'Unify(node, OpenRecord) and the UnifyRecordField calls; on a non-record it asserts); '
+    'all operation arguments are TypeReference objects of the pool',
+    'histories: a missed clash whose last operation reaches a list/record object along '
+    'two paths is attributed to the known finding clash_lost_in_shared_composite',
 ]
 
 _RA = [None]
@@ -1059,15 +1096,22 @@ def classify_hist(case, steps):
 
 
 def hist_strategy():
+    """All choices come from one random.Random that Hypothesis seeds with a drawn
+    integer (st.randoms(use_true_random=True) is deterministic under hypothesis.seed):
+    a history is a pure function of that draw."""
     from hypothesis import strategies as st
 
     @st.composite
     def cases(draw):
+        rnd = draw(st.randoms(use_true_random=True))
         nodes = []
         depths = []
 
         def d(n):
-            return draw(st.integers(0, n - 1))
+            return rnd.randrange(n)
+
+        def permuted(xs):
+            return rnd.sample(list(xs), len(xs))
 
         def push(kind, payload, dep, allow_raw=True):
             raw = 1 if allow_raw and d(8) == 0 else 0
@@ -1088,7 +1132,7 @@ def hist_strategy():
                 return push('list', c, depths[c] + 1)
             kind = 'open' if r < 4 else 'closed'
             k = (0, 1, 1, 2)[d(4)]
-            perm = draw(st.permutations(SAMPLE_FIELDS))
+            perm = permuted(SAMPLE_FIELDS)
             fs = [[f, small(maxd - 1)] for f in sorted(perm[:k], key=tm.fkey)]
             return push(kind, fs, 1 + max([depths[c] for _, c in fs] or [0]))
 
@@ -1154,7 +1198,7 @@ def hist_strategy():
                     i = pick(general)
                     s = pick(spares)
                     out = [['U', i, s]]
-                    perm = draw(st.permutations(SAMPLE_FIELDS))
+                    perm = permuted(SAMPLE_FIELDS)
                     for f in perm[:d(3)]:
                         out.append(['F', i, f, other(i)])
                     out.append(['C', i])
@@ -1211,7 +1255,14 @@ def hist_budget(n):
 
 
 def run_hist(ctx, col):
+    seen = set()
+
     def one(case):
+        hk = core.h(case)
+        if hk in seen:                          # Hypothesis repeats small histories
+            col.label('hist:duplicate_not_counted')
+            return
+        seen.add(hk)
         try:
             tcase, steps = hist_truncate(case)
         except (HistInvalid, tm.Cyclic) as e:
